@@ -1518,14 +1518,14 @@ def assignment_cost(
         filtered_ass = {}
         for v in c.dimensions:
             v_name = v.name
-            if consider_variable_cost:
-                if v_name not in cost_vars:
-                    cost += v.cost_for_val(assignment[v_name])
-                    cost_vars.add(v_name)
             try:
                 filtered_ass[v_name] = assignment[v_name]
             except KeyError:
                 filtered_ass[v_name] = kwargs[v_name]
+            if consider_variable_cost:
+                if v_name not in cost_vars:
+                    cost += v.cost_for_val(filtered_ass[v_name])
+                    cost_vars.add(v_name)
 
         cost += c(**filtered_ass)
 
